@@ -338,6 +338,42 @@ def run(chk, prog):
         chk.finding("attributes", fe.key, "context-source", "", "%s:%s" % (fe.file, fe.line),
                     "Filter::evaluate does not build its script context from request.props() of the context being routed")
 
+    # (6b) the members of request.target / request.source are read-only projections: everything an attribute getter calls is a method
+    # of the address value itself; a helper that rewrites the address on the way (v6 -> v4 mapping, canonicalisation, a rebuilt
+    # SocketAddr) makes rules see an address the connection does not have
+    getters = [f for f in prog.fns.values() if f.crate == "redproxy_rs" and re.search(r"milu::script::Accessible( for [^>]+)?>::get$", f.path)]
+    chk.floor("attributes", len(getters), 3, "Accessible::get implementations (request, target, source)")
+    OWN = re.compile(r"TargetAddress|SocketAddress|ContextAdaptor|ContextProps|core::clone::Clone|core::fmt::|core::convert::|Feature")
+    REWRITE = re.compile(r"net::.*::(to_ipv4|to_ipv4_mapped|to_canonical|to_ipv6_mapped|to_ipv6_compatible|set_ip|set_port|set_scope_id)$|"
+                         r"net::socket_addr::SocketAddr(V4|V6)?::new$")
+    seen, work, impure = set(), [g.key for g in getters], []
+    while work:
+        k = work.pop()
+        if k in seen or k not in prog.fns:
+            continue
+        seen.add(k)
+        f0 = prog.fns[k]
+        for g in [f0] + prog.children(f0):
+            for c in g.calls:
+                lk = c.local_key()
+                if lk and lk in prog.fns and prog.fns[lk].crate == "redproxy_rs":
+                    top = prog.top_parent(prog.fns[lk])
+                    if OWN.search(top.path):
+                        work.append(top.key)
+                    else:
+                        impure.append((g, c, short(top.path)))
+                elif REWRITE.search(c.path or ""):
+                    impure.append((g, c, short(c.path)))
+    chk.instance("attributes", "src/rules/script_ext.rs", "attribute getters of request / request.target / request.source only read the address they describe",
+                 not impure, "%d functions behind the getters; rewriting calls: %s" % (len(seen), [w for _, _, w in impure]))
+    for g, c, w in impure:
+        chk.finding("attributes", g.key, "rewritten", w, c.where(),
+                    "%s, which feeds a filter attribute, passes the address through %s: rules are evaluated on an address that is not the "
+                    "connection's (a deny rule on the real address no longer matches)" % (g.path, w))
+    # the source address itself is recorded as accepted, normalised only by the exact inverse of v4-mapping
+    from . import shared as _sh6
+    _sh6.rule_addr_map(chk, prog, "attributes", "source address filters see")
+
     # ---------------------------------------------------------------- (7) cidr_match
     cm = prog.find(r"script_ext::CidrMatch as milu::script::Callable>::call$", "redproxy_rs")
     if len(cm) != 1:
